@@ -255,15 +255,14 @@ theorem roundtrip_ts' {α : Type} (q : α → α) (t : List α) (xs : List (List
 
 /-! ### pandas frame -/
 
-theorem roundtrip_pkl' {α : Type} (names : List Str) (t : List α) (xs : List (List α)) (hl : names.length = xs.length)
-    (ht : "Time".toList ∉ names) : decodePkl (encodePkl names t xs) = .ok (names, t, xs) := by
+theorem roundtrip_pkl' {α : Type} (names : List Str) (t : List α) (xs : List (List α)) (hl : names.length = xs.length) :
+    decodePkl (encodePkl names t xs) = .ok (names, t, xs) := by
   unfold decodePkl encodePkl
   have h1 : (names.zip xs).map (·.1) = names := by
     rw [List.map_fst_zip]; omega
   have h2 : (names.zip xs).map (·.2) = xs := by
     rw [List.map_snd_zip]; omega
   simp only [h1, h2]
-  rw [if_neg (by simpa using ht)]
 
 /-! ### SIMA h5 -/
 
